@@ -578,14 +578,14 @@ def setup(ctx):
 def run(ctx):
     only = os.environ.get("VERIF_C20_PARTS")  # debugging aid: "tsan" runs only the sanitizer part of the thorough tier
     if only == "first-use":
-        ctx.forall(ctx.p_first, ctx.scale(150, 20000), batch=1)
+        ctx.forall(ctx.p_first, ctx.scale(150, 6000), batch=1)
         return
     if only != "tsan":
         ctx.enumerate(ctx.p_corner, corner_plans(ctx), batch=1, name="every invocable x {2,16} threads in lock step; nested x leaf pairs",
                       exhaustive=True)
         ctx.forall(ctx.p_stress, ctx.scale(400, 24000), batch=1)
         ctx.forall(ctx.p_cold, ctx.scale(60, 3000), batch=1)
-        ctx.forall(ctx.p_first, ctx.scale(150, 20000), batch=1)
+        ctx.forall(ctx.p_first, ctx.scale(150, 6000), batch=1)
     if ctx.thorough() and not ctx.stop():
         run_tsan(ctx)
     elif not ctx.thorough():
